@@ -21,6 +21,9 @@ params:
             never asserted: a cancelled plain Future output never releases it - D4, property C02)
   fn_raise  f_traverse only: element (1-based) at which fn raises, or None; fn_raise_type: "user" (default) |
             "stop" (StopIteration: an exception like any other for the caller of fn) | "key" (KeyError)
+  nest      f_or / f_and only: None | {"inner": [argument positions], "skip": [positions left out of the outer call]}:
+            out = op(op(*inner), *(all positions but skip)); skip must be a subset of inner
+  out_cb    None | input id: the client adds a done-callback to the output that calls cancel() on that input
   seq       None | list of input ids: no threads, the main thread completes these inputs in this order after
             the call (large-N cases)
   horizon   ticks
@@ -200,7 +203,14 @@ def build(p):
         E.emit("CombCall")
         E.upoint()
         try:
-            if op == "or":
+            nest = p.get("nest") if op in BOOL_OPS else None
+            if nest:
+                # op(op(inner...), rest...): the fold is associative and idempotent over the order in which inputs
+                # finish, so the outer output is judged by the same contract as op(all inputs)
+                bop = f_or if op == "or" else f_and
+                inner = bop(*[args[q - 1] for q in nest["inner"]])
+                out = bop(inner, *[args[q - 1] for q in range(1, len(args) + 1) if q not in nest.get("skip", ())])
+            elif op == "or":
                 out = f_or(*args)
             elif op == "and":
                 out = f_and(*args)
@@ -219,6 +229,9 @@ def build(p):
             return
         S.track(0, out)
         E.emit("CombRet", c=1 if (args and out is args[0]) else 0)
+        if p.get("out_cb"):
+            # a client's done-callback on the output that cancels one of the inputs ("the race is over")
+            out.add_done_callback(lambda _f, j=p["out_cb"]: given[j].cancel())
         if not p.get("early"):
             for i in threaded:
                 E.spawn("comp%d" % i, completer, i)
